@@ -32,6 +32,7 @@ type Op17 struct {
 	Rules [][]byte `json:"rules,omitempty"`
 	Noise int      `json:"noise,omitempty"` // unsolicited events before each ack
 	Eintr int      `json:"eintr,omitempty"` // transient EINTR receive failures before the ack
+	Hard  int      `json:"hard,omitempty"`  // errno of ONE non-transient receive failure that hits the first wait for this ack
 }
 
 type C17Case struct {
@@ -60,6 +61,9 @@ func genC17(t *rapid.T) C17Case {
 		}
 		o.Noise = rapid.SampledFrom([]int{0, 0, 0, 1, 2}).Draw(t, "noise")
 		o.Eintr = rapid.SampledFrom([]int{0, 0, 0, 1, 3, 9}).Draw(t, "eintr")
+		if o.K == "nowait" && rapid.IntRange(0, 7).Draw(t, "hard") == 0 {
+			o.Hard = rapid.SampledFrom([]int{int(syscall.ENOBUFS), int(syscall.EBADF), int(syscall.ENOTCONN)}).Draw(t, "harderrno")
+		}
 		if o.K == "getrules" {
 			for j, m := 0, rapid.IntRange(1, 4).Draw(t, "nrules"); j < m; j++ {
 				o.Rules = append(o.Rules, rapid.SliceOfN(rapid.Byte(), 1, 48).Draw(t, "rule"))
@@ -79,6 +83,7 @@ type pend struct {
 	errno int
 	noise int
 	eintr int
+	hard  int
 }
 
 func propC17(c C17Case) error {
@@ -130,7 +135,7 @@ func propC17(c C17Case) error {
 			if k.Recvs != before {
 				return fmt.Errorf("%s: a NoWait request performed %d receives", what, k.Recvs-before)
 			}
-			pending = append(pending, pend{k.Seq, o.Errno, o.Noise, o.Eintr})
+			pending = append(pending, pend{k.Seq, o.Errno, o.Noise, o.Eintr, o.Hard})
 			nowaits++
 			if o.Errno != 0 {
 				errAmong = true
@@ -140,6 +145,11 @@ func propC17(c C17Case) error {
 			k.OnSend = nil
 			k.Queue = nil
 			for _, p := range pending {
+				if p.hard != 0 {
+					// the read fails for good; the ACK itself has not been read and stays with the kernel
+					k.Fail(syscall.Errno(p.hard))
+					break
+				}
 				pushNoise(p.noise)
 				for j := 0; j < p.eintr; j++ {
 					k.Fail(syscall.EINTR)
@@ -149,13 +159,34 @@ func propC17(c C17Case) error {
 			before := k.Recvs
 			err := cl.WaitForPendingACKs()
 			consumed, recvs, wantErrno := 0, 0, 0
-			for _, p := range pending {
+			hardHit := false
+			for pi := range pending {
+				p := &pending[pi]
+				if p.hard != 0 {
+					// the call must fail; nothing is demanded about the error value; the ACK was not consumed
+					recvs++
+					hardHit = true
+					p.hard = 0
+					break
+				}
 				consumed++
 				recvs += 1 + p.noise + p.eintr
 				if p.errno != 0 {
 					wantErrno = p.errno
 					break
 				}
+			}
+			if hardHit {
+				if err == nil {
+					return fmt.Errorf("%s: a receive failed for good before all pending ACKs were read, but the call returned nil", what)
+				}
+				if got := k.Recvs - before; got != recvs {
+					return fmt.Errorf("%s: %d receive calls, want %d", what, got, recvs)
+				}
+				pending = pending[consumed:]
+				waits++
+				hC17.Class("waitacks-with-hard-receive-failure")
+				continue
 			}
 			switch {
 			case wantErrno != 0 && !errors.Is(err, syscall.Errno(wantErrno)):
